@@ -1252,7 +1252,7 @@ func TestC03(t *testing.T) {
 		}
 		h.Exhaustive("27 client methods x versions 0..7 x 2 backends with plain arguments")
 	}
-	rapidCases(h, "calls", env.PerShard(env.Pick(48000, 600000)), genCallCase, func(c callCase) *fail {
+	rapidCases(h, "calls", env.PerShard(env.Pick(48000, 2400000)), genCallCase, func(c callCase) *fail {
 		st := &callStats{}
 		f := runCallCase(c, st)
 		cls := "calls:" + c.Method
